@@ -262,6 +262,18 @@ def _routing(repo, rep):
         rep.check(L.polarity(ap[1], "node.char_escape") is None, "R02.2", site,
                   "the only append of the content follows both conversions",
                   construct="content-append", where=wh)
+    tr = [i for i, (it, _, _) in enumerate(lin.rows)
+          if isinstance(it, A.Frag) and it.tree is not None and any(
+              isinstance(n, ast.Call) and src(n.func) == "translate"
+              for n in ast.walk(it.tree))]
+    if q and c:
+        rep.check(bool(tr) and all(i < min(q[0], c[0]) for i in tr),
+                  "R02.2", site, "a translated content value is translated "
+                  "*before* it is converted and escaped (what the "
+                  "translation function returns is escaped like any value)",
+                  construct="translate-before-escape", where=wh,
+                  detail="translate at %s, conversion at %s" % (
+                      tr, (q[0], c[0])))
     appends = [i for i, (it, _, _) in enumerate(lin.rows)
                if isinstance(it, A.Frag) and
                L.frag_find(it, "__append(_X)", "expr")]
